@@ -51,6 +51,26 @@ def work_cells(task):
     for path in paths:
         r = rm.res(path)
         c = rm.encode(path)
+        # pairs with a child resolution coarser than the cell: the call may refuse (C06 requires that), but a list that IS returned has the length the rule says
+        for b in range(-1, r):
+            acc.n['states'] += 1
+            acc.n['transitions'] += 1
+            case = {'kind': 'cell', 'path': list(path), 'b': b}
+            try:
+                kids = a5.cell_to_children(c, b)
+            except Exception:
+                acc.n['validated'] += 1
+                continue
+            try:
+                rule = ci.get_num_children(r, b)
+            except Exception as e:
+                acc.violation(f'cell-children-raises:{path}:b={b}', f'get_num_children({r}, {b}) raised {e!r}', case)
+                continue
+            if not isinstance(kids, list) or len(kids) != rule:
+                acc.violation(f'cell-children-count:r={r}:b={b}:{"/".join(map(str, path))}',
+                              f'get_num_children({r}, {b}) = {rule} but cell_to_children({c:#x}, {b}) returned {len(kids) if isinstance(kids, list) else kids!r} cells', case)
+                continue
+            acc.n['validated'] += 1
         for b in range(r, 30):
             if rm.num_desc(r, b) > maxkids:
                 break
@@ -118,12 +138,19 @@ def work_level(task):
             # (every third cell of level `via` replaced by its children when that stays above r), in descending and in interleaved order
             mixed = []
             for i, c in enumerate(coarse):
-                mixed.extend(a5.cell_to_children(c, via + 1) if (i % 3 == 1 and via + 1 <= r) else [c])
-            for name, cover in (('descending', sorted(mixed, reverse=True)), ('interleaved', mixed[::2] + mixed[1::2])):
+                if i % 3 == 1 and via + 1 <= r:
+                    mixed.extend(a5.cell_to_children(c, via + 1))
+                elif i % 3 == 2 and r <= 5:
+                    mixed.extend(a5.cell_to_children(c, r))          # cells already at the target level between coarse ones
+                else:
+                    mixed.append(c)
+            rep = mixed[len(mixed) // 2]
+            extra = {'with a repeated cell': len(a5.cell_to_children(rep, r))}
+            for name, cover in (('descending', sorted(mixed, reverse=True)), ('interleaved', mixed[::2] + mixed[1::2]), ('with a repeated cell', mixed + [rep])):
                 got = a5.uncompact(list(cover), r)
                 acc.n['transitions'] += len(got)
-                if len(got) != nc or set(got) != allk:
-                    acc.violation(f'num-cells-uncompact:r={r}:via={via}:{name}', f'uncompact of a {name} mixed-level cover of the world ({len(cover)} cells of levels {via}/{via + 1}) to level {r} gives {len(got)} cells ({len(set(got))} distinct), get_num_cells = {nc}', case)
+                if len(got) != nc + extra.get(name, 0) or set(got) != allk:
+                    acc.violation(f'num-cells-uncompact:r={r}:via={via}:{name}', f'uncompact of a {name} mixed-level cover of the world ({len(cover)} cells of levels {via}/{via + 1}/{r}) to level {r} gives {len(got)} cells ({len(set(got))} distinct), get_num_cells = {nc}', case)
                 else:
                     acc.n['validated'] += len(got)
     except Exception as e:
